@@ -170,7 +170,7 @@ def poly_area(pts):
 
 # ---------------------------------------------------------------------------
 def generate(rng, tier, shard, nshards):
-    n = 160 if tier == 'quick' else 5000
+    n = 400 if tier == 'quick' else 8000
     for i in range(n):
         r = rng.random()
         rs = rng.randrange(2 ** 31)
